@@ -108,14 +108,14 @@ PROPS['C04'] = dict(
 )
 PROPS['C06'] = dict(
     modules=['specs.quoting', 'contracts.quoting', 'specs.ninja', 'contracts.conffile'],
-    bounded=['bounded.ninja:run_c06'],
+    bounded=['bounded.ninja:run_c06', 'bounded.determinism'],
     level='other',
     design_ref='DESIGN.md §4 C06',
-    technique='deductive (kernel): VCs from the real AST of replace_if_different (ghost effect trace over an abstract file system) and of NinjaBuildElement.write (set iteration modelled as a fresh arbitrary order, sorted(set) as a function of the set); hash-seed independence of a written statement bounded',
+    technique='deductive (kernel): VCs from the real AST of replace_if_different (ghost effect trace over an abstract file system) and of NinjaBuildElement.write (set iteration modelled as a fresh arbitrary order, sorted(set) as a function of the set); hash-seed independence of a written statement, of the OrderedSet operations and of WHOLE configure runs (real `meson setup --backend=none` of generated projects under several PYTHONHASHSEED values and environment orders, then a reconfigure) bounded; replace_if_different on real files bounded',
     level_text='Proved for all paths and file contents: replace_if_different performs no replace and no write when the contents are equal (the unchanged output is not touched) and exactly one os.replace(tmp, dst) otherwise. Proved for all dependency sets: the | and || segments written by NinjaBuildElement.write are functions of the SETS, not of their iteration order.',
-    level_note='Assumed: the abstract file system (existence/content as functions of the path at call time), sorted() without key is a function of the set, non-Windows host. NOT decided: every other source of ordering in a configure run (environment, directory listings, other generators), cross-process determinism as a whole.',
+    level_note='Assumed: the abstract file system (existence/content as functions of the path at call time), sorted() without key is a function of the set, non-Windows host. NOT decided deductively (bounded only, on four generated projects without compiled targets since no ninja/compiler back end is available offline): every other source of ordering in a configure run (directory listings, other generators), build.ninja as a whole.',
     explanation='kernel: unchanged outputs are not touched; dependency text independent of set iteration order; whole-run determinism not decided',
-    not_decided=['byte-identical build.ninja / intro files across runs as a whole', 'independence of os.environ order and readdir order'],
+    not_decided=['byte-identical build.ninja across runs as a whole (no ninja back end offline; intro files and configure_file outputs are compared bounded)', 'independence of readdir order'],
 )
 PROPS['C11'] = dict(
     modules=['contracts.install'],
